@@ -287,6 +287,94 @@ def check_cnot_counts_and_tabulation(ctx, cirq, n):
                                 'theorem_or_correspondence': 'factor product'})
 
 
+def check_multi_controlled(ctx, cirq):
+    """decompose_multi_controlled_x / _rotation for every number of controls up to 7 and every number of free (borrowed) qubits: the product
+    of the returned operations is the controlled gate written out as a matrix, and the borrowed qubits are returned unchanged"""
+    rng = ctx.substream('multi-controlled')
+
+    def controlled_matrix(m, nc, nfree):
+        # controls are the first nc qubits, then the target, then the free qubits (identity on them)
+        d = 2 ** (nc + 1)
+        full = np.eye(d, dtype=complex)
+        full[d - 2:, d - 2:] = m
+        return np.kron(full, np.eye(2 ** nfree))
+
+    cases = [(nc, nf) for nc in range(0, 8) for nf in range(0, 5) if nc + nf + 1 <= 10]
+    if ctx.tier == 'quick':
+        cases = [c for j, c in enumerate(cases) if j % 2 == ctx.seed % 2 or c in ((5, 3), (6, 4), (5, 4))]
+    for nc, nf in cases:
+        qs = cirq.LineQubit.range(nc + 1 + nf)
+        controls, target, free = list(qs[:nc]), qs[nc], list(qs[nc + 1:])
+        order = list(qs)
+        if rng.random() < 0.5:
+            # the qubits handed over in another order than the register: the matrix is still written for controls, target, free
+            perm = list(range(len(qs)))
+            rng.shuffle(perm)
+            qs2 = [qs[j] for j in perm]
+            controls, target, free = qs2[:nc], qs2[nc], qs2[nc + 1:]
+            order = qs2
+        for name, build, m in (
+            ('decompose_multi_controlled_x', lambda: cirq.decompose_multi_controlled_x(controls, target, free), np.array([[0, 1], [1, 0]], dtype=complex)),
+            ('decompose_multi_controlled_rotation', None, None),
+        ):
+            if build is None:
+                m = gen.rand_unitary(rng, 2) if rng.random() < 0.5 else cirq.unitary(rng.choice([cirq.X ** 0.3, cirq.Z ** 0.7, cirq.Y, cirq.rx(0.4), cirq.H]))
+                mm = m
+                build = lambda: cirq.decompose_multi_controlled_rotation(mm, controls, target)
+            ctx.count('check', name)
+            ctx.case(['multi-controlled', name, nc, nf, [q.x for q in order]], nc >= 3)
+            rep = {'lines': [{'routine': name, 'controls': nc, 'free': nf, 'order': [q.x for q in order], 'matrix': np.round(m, 6).tolist().__repr__()}], 'theorem_or_correspondence': 'controlled gate as a block matrix (C04_controlled_slice)'}
+            try:
+                ops = build()
+            except (ValueError, TypeError) as e:
+                ctx.count('synth_error', f'{name}:{str(e)[:40]}')
+                continue
+            got = cirq.Circuit(ops).unitary(qubit_order=order, qubits_that_should_be_present=order) if ops else np.eye(2 ** len(order))
+            want = controlled_matrix(m, nc, nf)
+            if got.shape != want.shape or not np.allclose(got, want, atol=1e-6):
+                ctx.report_witness(f'synth:{name}', f'{name} with {nc} controls and {nf} free qubits does not multiply to the controlled gate', dict(rep, impl_out=[f'max deviation {np.abs(got - want).max():.3g}', repr(ops)[:1500]], spec_out=['controlled gate']))
+
+
+def check_known_gate_tables(ctx, cirq):
+    """cirq_google.known_2q_op_to_sycamore_operations: whatever the table answers for a gate (None = not known) has the unitary of that gate
+    up to global phase, for the named two-qubit gates at integer, half-integer and generic powers, in both qubit orders, tagged or not"""
+    import cirq_google
+
+    rng = ctx.substream('known-gates')
+    q0, q1 = cirq.GridQubit(0, 0), cirq.GridQubit(0, 1)
+    fams = [cirq.ISWAP, cirq.SWAP, cirq.CZ, cirq.CNOT, cirq.ZZ, cirq.XX, cirq.YY, cirq.SQRT_ISWAP, cirq_google.SYC, cirq.FSimGate(np.pi / 2, np.pi / 6), cirq.FSimGate(np.pi / 2, 0), cirq.PhasedISwapPowGate(phase_exponent=0.25)]
+    exps = [-3, -2, -1, -0.5, 0.5, 1, 2, 3, 0.25, round(rng.uniform(-1, 1), 3)]
+    for g in fams:
+        for e in exps:
+            try:
+                ge = g ** e
+            except TypeError:
+                continue
+            if ge is NotImplemented or ge is None:
+                continue
+            for qs in ((q0, q1), (q1, q0)):
+                op = ge.on(*qs)
+                if rng.random() < 0.3:
+                    op = op.with_tags('t')
+                ctx.count('check', 'known_2q_op_to_sycamore_operations')
+                ctx.case(['known-gate', repr(op)], True)
+                try:
+                    out = cirq_google.known_2q_op_to_sycamore_operations(op)
+                except (ValueError, TypeError) as ex:
+                    ctx.count('synth_error', f'known_2q:{str(ex)[:40]}')
+                    continue
+                if out is None:
+                    ctx.count('known_gate', 'not-known')
+                    continue
+                ctx.count('known_gate', 'known')
+                got = cirq.Circuit(out).unitary(qubit_order=[q0, q1], qubits_that_should_be_present=[q0, q1])
+                want = cirq.Circuit(op).unitary(qubit_order=[q0, q1])
+                bad = [o for o in cirq.Circuit(out).all_operations() if len(o.qubits) == 2 and o.gate != cirq_google.SYC]
+                if bad or not phase_close(got, want, 1e-6):
+                    ctx.report_witness('synth:known_2q_op_to_sycamore_operations', 'the Sycamore known-gate table returns a circuit that is not the gate (up to global phase) or uses another two-qubit gate than SYC',
+                                       {'lines': [{'op': repr(op)}], 'impl_out': [repr(cirq.Circuit(out))[:1500]], 'spec_out': [np.round(want, 5).tolist().__repr__()], 'theorem_or_correspondence': 'C15 synthesis (T2)'})
+
+
 def check_matrix_routines(ctx, cirq, n):
     rng = ctx.substream('matrix')
     for i in range(n):
@@ -533,6 +621,8 @@ def run(ctx: common.Run):
     check_symbolic_sqrt_iswap(ctx, cirq)
     check_cnot_counts_and_tabulation(ctx, cirq, max(24, n // 2))
     check_synthesis(ctx, cirq, n)
+    check_multi_controlled(ctx, cirq)
+    check_known_gate_tables(ctx, cirq)
 
 
 def replay(ctx, rep):
